@@ -102,7 +102,7 @@ PROPS["C14"] = Prop(
 # C03 / C04 / C09 circuit breaker kernel
 # ---------------------------------------------------------------------------
 CB = "tower-resilience-circuitbreaker"
-_cb = lambda n, what, bound, **kw: H("circuit::verif_kani_in_circuit::" + n, CB, what, bound, playback=False, **kw)
+_cb = lambda n, what, bound, **kw: H("circuit::verif_kani_in_circuit::" + n, CB, what, bound, models=("tokio",), playback=False, **kw)
 CB_BOUND = ("ARBITRARY pre-state satisfying the representation invariant (one inductive step, so histories of any length and any "
             "number of callers); window 1..=3, minimum calls 1..=4, permitted 1..=3, thresholds any f64 in [0,1], slow-call detection on/off, "
             "durations any whole ms up to 100 s, clock anywhere")
@@ -116,7 +116,10 @@ def _cbfam(fn, what, quick, **kw):
 Q_ALL = {("count", 0), ("count", 1), ("count", 2), ("count", 3), ("time", 0), ("time", 1)}
 PROPS["C03"] = Prop(jobs=6,
     harnesses=_cbfam("c03_open_rejects", "open + wait not elapsed => try_acquire false, state/timer untouched; else half-open", Q_ALL, timeout=600)
-            + _cbfam("c03_late_results", "outcomes recorded while open neither close the breaker nor move its timer", {("count", 2), ("time", 1)}, timeout=900),
+            + _cbfam("c03_late_results", "outcomes recorded while open neither close the breaker nor move its timer", {("count", 2), ("time", 1)}, timeout=900)
+            + [_cb("c03_call_wiring", "CircuitBreaker::call: rejected => OpenCircuit at once, inner untouched, nothing recorded; admitted => forwarded once to the ready instance, recorded once, result unchanged",
+                   "one call, <= 4 polls, breaker lock granted at the solver's choice, try_acquire answer symbolic (Circuit operations scripted), any inner outcome", profile="service", mem_gb=24, timeout=1800),
+               _cb("c03_call_wiring_with_fallback", "CircuitBreakerWithFallback::call: rejected => the fallback's result, inner untouched", "as above", profile="service", mem_gb=24, timeout=1800)],
     functions=["tower_resilience_circuitbreaker::circuit::Circuit::{try_acquire,record_success,record_failure,transition_to,evaluate_window}"],
     bounds=CB_BOUND, outside="window sizes > 3; the service-level wiring (call() consults try_acquire before touching the inner service) is a separate protocol harness",
     assumptions=["Instant::now stubbed by a virtual clock; catch_unwind stubbed (no unwinding in Kani)",
@@ -352,7 +355,13 @@ PROPS["C11"] = Prop(
 )
 
 # ---------------------------------------------------------------------------
-# C05 retry
+# C20 transparency / readiness / listeners  (assembled from the per-layer protocol harnesses:
+# their [C20.*] assertions check forwarding, unchanged results and the ready-instance rule)
+# ---------------------------------------------------------------------------
+EXEC = "tower-resilience-executor"
+def _ref(pid, suffix):
+    return next(h for h in PROPS[pid].harnesses if h.name.endswith(suffix))
+
 # ---------------------------------------------------------------------------
 _r5 = lambda n, what, **kw: H("verif_kani::c05::" + n, RETRY, what,
     "one request; max_attempts 0..=3 (fixed or per-request); outcome sequence of <= 3 symbolic results (ok / retryable / non-retryable error); backoff per retry any whole ms <= 10 s; budget grants symbolic per retry; polls: one per attempt, the clock advanced by exactly the backoff in between (early polls: harness waits_full_backoff)",
@@ -399,6 +408,38 @@ PROPS["C08"] = Prop(
 )
 
 # ---------------------------------------------------------------------------
+# C20 (defined last: it re-uses the protocol harnesses of the other properties)
+# ---------------------------------------------------------------------------
+_c20new = [
+    H("verif_kani::c20::listeners_receive_every_event_in_order", CORE, "EventListeners::emit: every listener gets every event once, in order", "0..=3 listeners, 2 events", timeout=600),
+    H("verif_kani::c01::listeners_only_observe", BH, "bulkhead call with two side-effecting listeners: outcome unchanged, both get every event", "one call, free slot, immediate inner", models=("tokio",), profile="service", playback=False, mem_gb=20, timeout=1500),
+    H("verif_kani::c20::executor_transparent", EXEC, "executor layer: spawned once, forwarded once to the ready instance, result unchanged", "one call, <= 3 scheduling rounds", models=("tokio",), profile="service", playback=False, mem_gb=20, timeout=1500),
+    H("verif_kani::c20::executor_readiness_passthrough", EXEC, "pending / failing inner readiness surfaces unchanged", "", models=("tokio",), profile="service", playback=False, mem_gb=20, timeout=900),
+    H("verif_kani::c05::c20_retries_unready", RETRY, "KNOWN-FINDING witness: retries are not preceded by a readiness check", "2 attempts, zero backoff", models=("tokio", "rand"), profile="service", playback=False, mem_gb=24, timeout=1800, expect="known"),
+    H("verif_kani::c16::c20_reconnect_retry_unready", RECONNECT, "KNOWN-FINDING witness: the retried call goes to a never-polled clone", "2 attempts, zero delay", models=("tokio", "rand"), profile="service", playback=False, mem_gb=24, timeout=1800, expect="known"),
+    H("verif_kani::c12::c20_hedges_unready", HEDGE, "KNOWN-FINDING witness: hedged attempts go to never-polled clones", "parallel mode, 2 attempts", models=("tokio",), profile="service", playback=False, mem_gb=24, timeout=1800, expect="known"),
+]
+import copy as _copy
+def _retier(h, tiers):
+    h2 = _copy.copy(h)
+    h2.tiers = tiers
+    return h2
+_c20refs_quick = [_ref("C01", "one_call_any_availability"), _ref("C03", "c03_call_wiring"), _ref("C17", "strategy_value"), _ref("C13", "in_flight_exact_one_call"),
+                  _ref("C11", "dropped_waiter_is_harmless"), _ref("C02", "call_wiring")]
+_c20refs_thorough = [_ref("C03", "c03_call_wiring_with_fallback"), _ref("C06", "cancel_fixed_timeout"), _ref("C06", "no_cancel_fixed_timeout"), _ref("C19", "one_request_all_rolls"),
+                     _ref("C05", "plain"), _ref("C16", "custom_policy_predicate_retry"), _ref("C12", "parallel_mode_two_attempts"), _ref("C11", "leader_waiter_and_other_key")]
+PROPS["C20"] = Prop(
+    harnesses=_c20new + [_retier(h, ("quick", "thorough")) for h in _c20refs_quick] + [_retier(h, ("thorough",)) for h in _c20refs_thorough],
+    functions=["Service::{poll_ready,call} of bulkhead, circuit breaker (+fallback variant), rate limiter, time limiter, retry, fallback, hedge, reconnect, adaptive, coalesce, executor, chaos",
+               "tower_resilience_core::events::EventListeners::{add,emit}"],
+    bounds="one call per layer in its protocol harness (bounds as stated for C01/C02/C03/C05/C06/C11/C12/C13/C16/C17/C19); 0..=3 listeners",
+    outside="cache layer (std HashMap, see C10); stacks of several layers (exceed the one-call budget); LISTENERS THAT PANIC (Kani has no unwinding; catch_unwind is stubbed by Ok(f())); "
+            "readiness of retries / hedged attempts / reconnect retries is a recorded finding",
+    assumptions=["inner service = strict contract checker: an instance is ready only after its own poll_ready returned Ready(Ok) and until its next call; Clone yields a not-ready instance",
+                 "tokio / rand / hashbrown models as for the referenced properties"],
+)
+
+# ---------------------------------------------------------------------------
 HOOK_COMMITS = ["b67d6cc440f8922972f92b38f6e06fc0ff45ba61"]
 NOT_APPLICABLE = {
     "C10": "decided by the contents of std::collections::HashMap / lru::LruCache (hashbrown SwissTable + SipHash): two inserts with one "
@@ -406,6 +447,36 @@ NOT_APPLICABLE = {
            "containers would verify nothing the statement says (DESIGN.md section 6)",
 }
 MANIFEST_TEXT = {
+    "C20": {"text": "Per-layer bounded model checking with an inner service that checks the Tower contract itself (ready only after its own poll_ready, clone = not ready): each layer's "
+            "one-call protocol harness shows the request is forwarded exactly once, unchanged, to the instance that reported ready, and the response/error comes back unchanged in "
+            "the pass-through variant; readiness pending/errors pass through (executor, adaptive); EventListeners::emit delivers every event to every listener once, in order, and a "
+            "call with side-effecting listeners resolves as without them. Retries, hedged attempts and reconnect retries on never-polled instances are reported as KNOWN-FINDING.",
+            "note": "NOT covered: listeners that panic (no unwinding in Kani; catch_unwind cannot even be compiled and is stubbed), the cache layer (std HashMap), stacks of layers. "
+            "The quick tier runs a subset of the layers; the thorough tier all of them.",
+            "design_ref": "DESIGN.md 4/C20"},
+    "C06": {"text": "Bounded model checking of one call through the real TimeLimiter::call in both cancellation modes with symbolic timeout (fixed / per request) and symbolic inner latency "
+            "(below, equal, above, never): the call is never pending at or after its deadline nor after the inner result is available; Timeout only at/after the deadline and (cancel mode) "
+            "only if no inner result is available at that poll; inner results unchanged; cancel mode drops the inner call at the deadline, non-cancel mode leaves it alive in its "
+            "spawned task and it runs to completion when scheduled.",
+            "note": "2 polls per call; tokio timeout/sleep/spawn/oneshot are the model, select! is tokio's macro text. That the timer wakes the task AT the deadline is tokio's.", "design_ref": "DESIGN.md 4/C06"},
+    "C11": {"text": "Bounded model checking of 3-4 requests over two keys through the real CoalesceService::call / CoalesceFuture::{poll,drop}: one inner call per key, waiters cause none, "
+            "a waiter is pending while the leader runs and gets a clone of its result (ok or error) at its next poll after completion, LeaderCancelled at its next poll after the leader "
+            "was dropped, the key is reusable at once, a dropped waiter is harmless, keys are independent.",
+            "note": "hashbrown map replaced by an association-list model; broadcast by the tokio model; fixed arrival order (leader, waiter, other key); leader panic = drop only.", "design_ref": "DESIGN.md 4/C11"},
+    "C12": {"text": "Bounded model checking of one hedged call through the real execute_with_hedging with the harness as runtime (any clock advance, any subset of attempt tasks scheduled before "
+            "each poll), symbolic per-attempt latency and outcome: at most max attempts started, hedges no earlier than the delay after the previous start (all at once in parallel mode), "
+            "resolves as soon as a successful attempt has delivered, the response is that of a successful attempt, AllAttemptsFailed only when every attempt was started and failed.",
+            "note": "max_hedged_attempts 2 (quick) / 1..3 (thorough), 3-5 scheduling rounds; spawn/mpsc/sleep are the model, select! is tokio's macro text.", "design_ref": "DESIGN.md 4/C12"},
+    "C16": {"text": "Bounded model checking of one request through the real ReconnectFuture state machine with symbolic outcome sequence, max_attempts, per-attempt delays (scripted policy), predicate "
+            "on/off, retry_on_reconnect on/off and another request marking the shared state connected at arbitrary moments: at most max_attempts+1 calls, retries only after errors the "
+            "predicate accepts and only after exactly the policy's delay, correct error variant wrapping the last error, Connected after success, not Connected during back-off and while "
+            "the retried call is in flight.",
+            "note": "ReconnectPolicy::delay_for_attempt is scripted (its values are C14); <= 4 polls; max_attempts <= 1 or unlimited.", "design_ref": "DESIGN.md 4/C16"},
+    "C18": {"text": "SELECTION part only: bounded model checking of SelectionStrategy::select over real HealthCheckedContexts with all published status vectors of <= 3 resources: only "
+            "healthy/degraded resources are returned, None iff none is usable, first-available/prefer-healthy orders, round-robin returns the cyclic successor among the eligible ones "
+            "(hence even visiting), the custom selector sees the statuses.",
+            "note": "The THRESHOLD clause (status flips after failure_threshold / success_threshold consecutive checks) is NOT covered: that logic is a closure nested in two tokio::spawn calls "
+            "inside HealthCheckWrapper::start. RandomState::new is stubbed.", "design_ref": "DESIGN.md 4/C18"},
     "C01": {"text": "Assume/guarantee. Bounded model checking of ONE call through the real Bulkhead::call future against the semaphore's contract (environment "
             "model answering at the solver's choice), for every schedule of its polls, every clock value, every max_wait setting, every inner outcome and every "
             "drop point: the inner service is entered only while the caller holds a permit, the permit outlives the inner future, it is released exactly once on "
